@@ -354,6 +354,10 @@ func stringOptionSchema(field reflect.StructField, fieldSchema *openapi3.Schema)
 	if ft.Name() == "" && ft.Kind() == reflect.Ptr {
 		ft = ft.Elem()
 	}
+	if ft.Implements(jsonMarshalerType) || reflect.PointerTo(ft).Implements(jsonMarshalerType) {
+		// encoding/json writes what MarshalJSON returns and ignores the option.
+		return fieldSchema
+	}
 	switch ft.Kind() {
 	case reflect.Bool, reflect.String, reflect.Float32, reflect.Float64,
 		reflect.Int, reflect.Int8, reflect.Int16, reflect.Int32, reflect.Int64,
